@@ -319,4 +319,5 @@ def _var_combine(a, axis=None, correction=None, **kwargs):
 
 
 def _var_aggregate(a, correction=None, **kwargs):
-    return nxp.divide(a["M2"], a["n"] - correction)
+    # degrees of freedom can't be negative (like NumPy, this gives nan or inf if zero)
+    return nxp.divide(a["M2"], nxp.maximum(a["n"] - correction, 0))
